@@ -1612,6 +1612,40 @@ def composed_closure_sites(ctx):
                     info.append((cn, tp, origin))
             if info:
                 outl.append((pb, cb, info))
+        # closures built by a crate helper (`and(first, second)` returning `move |x| first(x) && second(x)`): they appear as closure terms
+        # in the host once the helper is inlined; their captures are the host's terms
+        r = ctx.run(hn)
+        seen_c = {cb_.name for (pb_, cb_, in_) in outl if pb_.name == hn}
+        for x in list(_all_terms(r)):
+            if x[0] != 'closure' or x[1] not in F.bodies or x[1] in seen_c:
+                continue
+            cb = F.bodies[x[1]]
+            root = F.root_of(cb)
+            if root.name == hn or root.is_closure():
+                continue
+            creator = F.bodies.get(cb.parent)
+            if creator is None:
+                continue
+            cucp = user_closure_params(creator)
+            agg = None
+            for blk in creator.blocks.values():
+                for st in blk['stmts']:
+                    rv = st['rv']
+                    if rv['r'] == 'agg' and rv.get('ak') == 'closure' and rv.get('def') == cb.name:
+                        agg = (st, rv)
+            if agg is None:
+                continue
+            caps = cb.d.get('captures', [])
+            info = []
+            for i, cn in enumerate(caps):
+                op = agg[1]['ops'][i] if i < len(agg[1]['ops']) else None
+                l = place_local(op) if op else None
+                tp = local_type_param(creator, l) if l is not None else None
+                if tp in cucp and i < len(x[2]):
+                    info.append((cn, tp, x[2][i]))
+            if len(info) >= 2:
+                seen_c.add(cb.name)
+                outl.append((pb, cb, info))
     return outl
 
 
@@ -1661,10 +1695,11 @@ def c01_compose(ctx):
         if len(info) < 2:
             continue
         n += 1
-        key = 'C01-COMPOSE/' + key_of(cb)
+        key = 'C01-COMPOSE/' + key_of(cb) + ('' if F.root_of(cb).name == pb.name else '@' + key_of(pb))
         cfg = ctx.cfg(cb)
         r, ev = closure_events(ctx, cb)
-        fb = pb.fn_bounds()
+        fb = dict(pb.fn_bounds())
+        fb.update(F.root_of(cb).fn_bounds())
         ups = [cn for (cn, tp, org) in info if org is not None and org[0] != 'param']
         news = [cn for (cn, tp, org) in info if org is not None and org[0] == 'param']
         bool_of = {cn: fb.get(tp, {}).get('output') == 'bool' for (cn, tp, org) in info}
@@ -2557,4 +2592,42 @@ def c01_fresh(ctx):
                           'destructor run over never-written slots while unwinding) and *_with_index reports absolute positions in parallel but remaining-relative '
                           'ones with num_threads(1)' % (key_of(b), ty[:60]), b.where())
     out.floor('sources', n, 8 if not ctx.fixture else 0)
+    return out
+
+
+# ======================================================================================= C02-FRESHSEQ
+@rule('C02-FRESHSEQ', 'a sequential kernel numbers elements from 0: it is never handed an iterator that the same function has already pulled from')
+def c02_freshseq(ctx):
+    out = RuleOut('C02-FRESHSEQ')
+    F = ctx.facts
+    S = ctx.slots
+    kernels = set(S.seq_kernels) | set(S.seq_delegates)
+    n = 0
+    for b in F.fn_bodies():
+        if b.name in S.tasks or b.name in kernels:
+            continue
+        seq_uses = [(bb, t) for bb, t in b.calls() if callee_of(t) in kernels or is_coniter_call(t, {'into_seq_iter'})]
+        if not seq_uses:
+            continue
+        n += 1
+        pulls = [(bb, t) for bb, t in b.calls() if is_pull_call(t)]
+        key = 'C02-FRESHSEQ/' + key_of(b)
+        bad = None
+        if pulls:
+            cfg = ctx.cfg(b)
+            r = ctx.run0(b.name)
+            for pbb, pt in pulls:
+                pc = r.calls.get(pbb)
+                pit = base_strip(pc['args'][0]) if pc and pc['args'] else None
+                after = cfg.reach(pbb)
+                for sbb, st in seq_uses:
+                    sc = r.calls.get(sbb)
+                    if sbb in after and sbb != pbb and sc is not None and any(base_strip(a) == pit for a in sc['args']):
+                        bad = (pt, st)
+        out.inst(key, bad is None, '%d sequential use(s), %d pull(s)' % (len(seq_uses), len(pulls)), sample={'fn': key_of(b), 'sequential_uses': len(seq_uses), 'pulls': len(pulls)})
+        if bad:
+            out.fail(key, '%s pulls from the iterator (%s) and afterwards hands the same iterator to the sequential route (%s): the sequential kernels number the '
+                          'remaining elements from 0, so every reported index is off by the number of elements already pulled'
+                     % (key_of(b), method(bad[0]), res(bad[1])), b.where(bad[1].get('line')))
+    out.floor('sequential_routes', n, 6 if not ctx.fixture else 0)
     return out
